@@ -45,7 +45,12 @@ def _resume(self, event):
     nid = rec.node_ids[self._fs_owner]
     rec.begin(nid, self)
     try:
-        return _orig_resume(self, event)
+        r = _orig_resume(self, event)
+        tgt = getattr(self, "_target", None)
+        if isinstance(tgt, simpy.events.Timeout) and rec.act is not None and self.is_alive:
+            d = f2t(tgt._delay)
+            rec.act["calls"].append(f"wait {d if d is not None else tgt._delay}")
+        return r
     except BaseException as ex:
         if rec.act is not None: rec.act["calls"].append(f"crash {type(ex).__name__}")
         raise
@@ -252,7 +257,7 @@ class Recorder:
         quiet()
         same = 0; last_t = None
         try:
-            while self.env._queue and self.env.peek() <= t2f(horizon):
+            while self.env._queue and self.env.peek() < t2f(horizon):
                 t = self.env.peek()
                 same = same + 1 if t == last_t else 0
                 last_t = t
@@ -262,6 +267,12 @@ class Recorder:
                     self.env.step()
                 except Exception as ex:
                     self.crash = (type(ex).__name__, str(ex)[:200], f2t(self.env.now)); break
+            if self.crash is None and self.env.now < t2f(horizon):
+                # as `env.run(until=T)` does: the clock ends at T, events at exactly T are not processed
+                try:
+                    self.env.run(until=t2f(horizon))
+                except Exception as ex:
+                    self.crash = (type(ex).__name__, str(ex)[:200], f2t(self.env.now))
         finally:
             CUR["rec"] = None
         return self
